@@ -29,6 +29,7 @@ import SharkVerif.Lemmas.ByClass
 import SharkVerif.Lemmas.RepartitionLoop
 import SharkVerif.Lemmas.BinarySub
 import SharkVerif.Lemmas.SortedRuns
+import SharkVerif.Lemmas.PureBatches
 namespace SharkVerif.C03
 open SharkVerif.CheckedNat SharkVerif.Gen.BatchArith SharkVerif.BatchArith SharkVerif.Dataset
 
@@ -1119,6 +1120,203 @@ theorem oneVersusRest_pairs (d : CData ι) (c : Nat) (h : WF d) :
       pairs d' = (pairs d).map (fun p => (p.1, if p.2 = c then 1 else 0)) := by
   obtain ⟨d', h1, h2, h3, _⟩ := transformLabels_pairs d (fun l => if l = c then 1 else 0) [] h
   exact ⟨d', h1, h2, h3⟩
+
+/-- the labels after `repartitionByClass`: class by class, as many copies of each class as it has members -/
+theorem repartitionByClass_labels (d d' : CData ι) (bs : Nat) (hw : WF d) (h : repartitionByClass d bs = .ok d') :
+    d'.labels.flat = (List.range (d.labels.flat.foldl max 0 + 1)).flatMap
+      (fun c => List.replicate (d.labels.flat.count c) c) := by
+  obtain ⟨hw', _, hexp⟩ := repartitionByClass_perm d d' bs hw h
+  have hlen := WF_flat_length d hw
+  have h1 := congrArg (List.map (fun o : Option (ι × Nat) => (o.map (·.2)).getD 0)) hexp
+  simp only [List.map_map] at h1
+  have e1 : (List.map ((fun o : Option (ι × Nat) => (o.map (·.2)).getD 0) ∘ some) (pairs d')) = (pairs d').map (·.2) := by
+    apply List.map_congr_left; intro x _; rfl
+  have e2 : List.map ((fun o : Option (ι × Nat) => (o.map (·.2)).getD 0) ∘ fun x => (pairs d)[x]?)
+      (classOrder d.labels.flat (d.labels.flat.foldl max 0 + 1)) =
+      (classOrder d.labels.flat (d.labels.flat.foldl max 0 + 1)).map (fun i => d.labels.flat[i]?.getD 0) := by
+    apply List.map_congr_left
+    intro i _
+    simp only [Function.comp, pairs, getElem?_zip_bind]
+    cases ha : d.inputs.flat[i]? with
+    | none =>
+      have : d.inputs.flat.length ≤ i := by
+        rcases Nat.lt_or_ge i d.inputs.flat.length with hlt | hge
+        · rw [List.getElem?_eq_getElem hlt] at ha; simp at ha
+        · exact hge
+      rw [List.getElem?_eq_none (by omega : d.labels.flat.length ≤ i)]
+      simp
+    | some a => cases hb : d.labels.flat[i]? <;> simp
+  rw [e1, e2, classOrder_labels] at h1
+  rw [← h1]
+  simp only [pairs]
+  exact (List.map_snd_zip (by rw [WF_flat_length d' hw']; exact Nat.le_refl _)).symm
+
+/-- **layout after repartitionByClass** (source returning no batch for zero elements, `hz`): the label batches
+are, class by class in ascending order, the block of that class' labels cut into the batch sizes
+`optimalBatchSizes` gives for the class count — so every batch is non-empty and holds one class only -/
+theorem repartitionByClass_layout (d d' : CData ι) (bs : Nat) (hw : WF d) (hbs : 0 < bs)
+    (hz : optimalBatchSizes 0 bs = some []) (h : repartitionByClass d bs = .ok d') :
+    d'.labels.batches = ((List.range (d.labels.flat.foldl max 0 + 1)).map
+        (fun c => List.replicate (d.labels.flat.count c) c)).flatMap
+      (fun blk => splitBySizes blk (obs0 bs blk.length)) := by
+  have hlab := repartitionByClass_labels d d' bs hw h
+  obtain ⟨hw', _, _⟩ := repartitionByClass_perm d d' bs hw h
+  -- the partitioning of the result
+  have hpart : d'.labels.partitioning =
+      ((List.range (d.labels.flat.foldl max 0 + 1)).map (fun c => d.labels.flat.count c)).flatMap (obs0 bs) := by
+    simp only [repartitionByClass, bind_ok, ofOpt_ok] at h
+    obtain ⟨counts, hcounts, ⟨nb, st, sizes⟩, hbp, d1, hrep, labs, _, hreo⟩ := h
+    simp only [classSizes, numberOfClasses, bind_ok, require_ok, pure_ok] at hcounts
+    obtain ⟨C, ⟨_, _, hC⟩, hcnt⟩ := hcounts
+    subst hC
+    have hspec := batchPartitioning_eq counts [] [] bs (obs0 bs) (fun p _ => by
+      unfold obs0
+      by_cases h0 : p = 0
+      · subst h0; simpa using hz
+      · simp only [h0, if_false]; exact optimalBatchSizes_defined (Nat.pos_of_ne_zero h0) hbs)
+    rw [hspec] at hbp
+    simp only [List.nil_append, Option.some.injEq, Prod.mk.injEq] at hbp
+    obtain ⟨_, _, hsizes⟩ := hbp
+    obtain ⟨hw1, _, hpart1⟩ := repartition_pairs d d1 sizes hrep
+    have hne1 : allPos d1.inputs.partitioning := by
+      have hr := hrep
+      simp only [LabeledData.repartition, bind_ok, pure_ok] at hr
+      obtain ⟨i, hi, l, _, rfl⟩ := hr
+      have hip := (repartition_flat _ _ _ hi).2.1
+      simp only [Data.repartition, bind_ok, require_ok, pure_ok, Bool.and_eq_true] at hi
+      obtain ⟨_, _, _, ⟨_, hall⟩, _⟩ := hi
+      show allPos i.partitioning
+      rw [hip]; exact allPos_of_all sizes hall
+    have hr := hreo
+    simp only [LabeledData.reorderElements, bind_ok, pure_ok] at hr
+    obtain ⟨i, _, l, hl, rfl⟩ := hr
+    have hlp := (reorderElements_flat _ _ _ (hw1 ▸ hne1) hl).2.1
+    show l.partitioning = _
+    rw [hlp, ← hw1]
+    have : d1.inputs.partitioning = sizes := hpart1
+    rw [this, ← hsizes, ← hcnt]
+  have hb := batches_eq_split d'.labels.batches
+  have hflat : d'.labels.batches.flatten = d'.labels.flat := rfl
+  have hp2 : d'.labels.batches.map List.length = d'.labels.partitioning := rfl
+  rw [hflat, hp2, hlab, hpart] at hb
+  rw [← hb]
+  have hfl : (List.range (d.labels.flat.foldl max 0 + 1)).flatMap (fun c => List.replicate (d.labels.flat.count c) c) =
+      ((List.range (d.labels.flat.foldl max 0 + 1)).map (fun c => List.replicate (d.labels.flat.count c) c)).flatten := by
+    rw [List.flatMap_def]
+  rw [hfl]
+  have hsz : ((List.range (d.labels.flat.foldl max 0 + 1)).map (fun c => d.labels.flat.count c)).flatMap (obs0 bs) =
+      ((List.range (d.labels.flat.foldl max 0 + 1)).map (fun c => List.replicate (d.labels.flat.count c) c)).flatMap
+        (fun blk => obs0 bs blk.length) := by
+    rw [List.flatMap_def, List.flatMap_def, List.map_map, List.map_map]
+    congr 1
+    apply List.map_congr_left
+    intro c _
+    simp
+  rw [hsz]
+  exact splitBySizes_blocks (fun blk => obs0 bs blk.length) (fun blk => by
+    unfold obs0
+    by_cases h0 : blk.length = 0
+    · simp [h0]
+    · simp only [h0, if_false]
+      obtain ⟨l, hl, hs⟩ := optimalBatchSizes_sum (Nat.pos_of_ne_zero h0) hbs
+      rw [optimalBatchSizes_defined (Nat.pos_of_ne_zero h0) hbs] at hl
+      cases hl; exact hs) _
+
+theorem obs0_pos (bs : Nat) (hbs : 0 < bs) (n : Nat) : ∀ s ∈ obs0 bs n, 0 < s := by
+  intro s hs
+  unfold obs0 at hs
+  by_cases h0 : n = 0
+  · simp [h0] at hs
+  · simp only [h0, if_false] at hs
+    obtain ⟨l, hl, hb, _⟩ := optimalBatchSizes_le_max_balanced (Nat.pos_of_ne_zero h0) hbs
+    rw [optimalBatchSizes_defined (Nat.pos_of_ne_zero h0) hbs] at hl
+    cases hl
+    exact (hb s hs).1
+
+theorem split_replicate_heads (c : Nat) : ∀ (sz : List Nat) (m : Nat), sz.sum = m → (∀ s ∈ sz, 0 < s) →
+    (splitBySizes (List.replicate m c) sz).map (·[0]?) = List.replicate sz.length (some c) := by
+  intro sz
+  induction sz with
+  | nil => intro m _ _; simp [splitBySizes]
+  | cons s ss ih =>
+    intro m hsum hpos
+    simp only [List.sum_cons] at hsum
+    have hs : 0 < s := hpos s (by simp)
+    have hle : s ≤ m := by omega
+    simp only [splitBySizes, List.map_cons, List.length_cons, List.replicate_succ, List.take_replicate,
+      List.drop_replicate, Nat.min_eq_left hle]
+    rw [ih (m - s) (by omega) (fun x hx => hpos x (by simp [hx]))]
+    congr 1
+    cases s with
+    | zero => omega
+    | succ k => simp [List.replicate_succ]
+
+/-- **after repartitionByClass every batch is non-empty and holds a single class**, and the classes of the
+batches (label of the first element) are sorted ascending: `cls` lists class c once per batch that
+`optimalBatchSizes` allots to its members -/
+theorem repartitionByClass_batches_pure (d d' : CData ι) (bs : Nat) (hw : WF d) (hbs : 0 < bs)
+    (hz : optimalBatchSizes 0 bs = some []) (h : repartitionByClass d bs = .ok d') :
+    (∀ b ∈ d'.labels.batches, b ≠ [] ∧ ∃ c, ∀ x ∈ b, x = c) ∧
+    ∃ cls : List Nat, cls.Pairwise (· ≤ ·) ∧ d'.labels.batches.map (·[0]?) = cls.map some := by
+  have hlay := repartitionByClass_layout d d' bs hw hbs hz h
+  have hsumb : ∀ n, (obs0 bs n).sum = n := by
+    intro n
+    unfold obs0
+    by_cases h0 : n = 0
+    · simp [h0]
+    · simp only [h0, if_false]
+      obtain ⟨l, hl, hs⟩ := optimalBatchSizes_sum (Nat.pos_of_ne_zero h0) hbs
+      rw [optimalBatchSizes_defined (Nat.pos_of_ne_zero h0) hbs] at hl
+      cases hl; exact hs
+  refine ⟨?_, ?_⟩
+  · intro b hb
+    rw [hlay] at hb
+    simp only [List.mem_flatMap, List.mem_map, List.mem_range] at hb
+    obtain ⟨blk, ⟨c, _, rfl⟩, hbm⟩ := hb
+    simp only [List.length_replicate] at hbm
+    refine ⟨?_, c, fun x hx => ?_⟩
+    · have hl := splitBySizes_lengths (obs0 bs (d.labels.flat.count c)) (List.replicate (d.labels.flat.count c) c)
+        (by simp [hsumb])
+      have : b.length ∈ obs0 bs (d.labels.flat.count c) := by
+        rw [← hl]; exact List.mem_map_of_mem hbm
+      have := obs0_pos bs hbs _ _ this
+      intro h0; rw [h0] at this; simp at this
+    · have := mem_of_mem_splitBySizes _ _ b hbm x hx
+      exact (List.mem_replicate.mp this).2
+  · refine ⟨(List.range (d.labels.flat.foldl max 0 + 1)).flatMap
+        (fun c => List.replicate (obs0 bs (d.labels.flat.count c)).length c), ?_, ?_⟩
+    · rw [List.pairwise_flatMap]
+      refine ⟨fun c _ => ?_, ?_⟩
+      · apply List.Pairwise.imp_of_mem (R := fun _ _ => True)
+        · intro a b ha hb _
+          rw [(List.mem_replicate.mp ha).2, (List.mem_replicate.mp hb).2]
+          exact Nat.le_refl _
+        · exact List.pairwise_of_forall (fun _ _ => trivial)
+      · apply List.Pairwise.imp _ List.pairwise_lt_range
+        intro a b hab x hx y hy
+        rw [(List.mem_replicate.mp hx).2, (List.mem_replicate.mp hy).2]
+        omega
+    · rw [hlay, List.map_flatMap, List.map_flatMap, List.flatMap_def, List.flatMap_def, List.map_map]
+      congr 1
+      apply List.map_congr_left
+      intro c _
+      simp only [Function.comp, List.length_replicate]
+      rw [split_replicate_heads c _ _ (hsumb _) (obs0_pos bs hbs _)]
+      simp
+
+/-- **binary sub-problem of a class-repartitioned dataset**: `binarySubProblem(repartitionByClass(d), c0, c1)`
+(c0 ≠ c1), when it succeeds, consists of exactly all batches of class min(c0,c1) followed by all batches of class
+max(c0,c1) — every batch holding that single class — with labels replaced by `[l = c1]` -/
+theorem binarySubProblem_after_repartitionByClass (d d1 d2 : CData ι) (bs : Nat) (hw : WF d) (hbs : 0 < bs)
+    (hz : optimalBatchSizes 0 bs = some []) (h1 : repartitionByClass d bs = .ok d1) (c0 c1 : Nat) (hc : c0 ≠ c1)
+    (h2 : binarySubProblem d1 c0 c1 = .ok d2) :
+    ∃ cls : List Nat, cls.Pairwise (· ≤ ·) ∧ d1.labels.batches.map (·[0]?) = cls.map some ∧
+      (∀ b ∈ d1.labels.batches, b ≠ [] ∧ ∃ c, ∀ x ∈ b, x = c) ∧
+      ∃ sub, d1.indexedSubset (idxs (min c0 c1) cls 0 ++ idxs (max c0 c1) cls 0) = .ok sub ∧
+        sub.transformLabels (fun l => if l = c1 then 1 else 0) [] = .ok d2 := by
+  obtain ⟨hpure, cls, hs, hcls⟩ := repartitionByClass_batches_pure d d1 bs hw hbs hz h1
+  obtain ⟨sub, hsub, htr⟩ := binarySubProblem_exact d1 (fun b hb => (hpure b hb).1) c0 c1 hc cls hcls hs d2 h2
+  exact ⟨cls, hs, hcls, hpure, sub, hsub, htr⟩
 
 /-! ## non-vacuity -/
 example : optimalBatchSizes 10 4 = some [4, 3, 3] := by decide
